@@ -65,7 +65,7 @@ class Stepper(object):
             except (ValueError, TypeError) as exc:
                 raised = type(exc).__name__
         elif k == "event":
-            h.event(op[1])
+            h.event(op[1], dict(op[2]) if len(op) > 2 and op[2] else None)
         elif k == "setting":
             h.update_settings(**{op[1]: op[2]})
         after = h.regions()
@@ -150,7 +150,13 @@ def run_case(case, strict=False):  # pylint: disable=unused-argument
 
 
 num = st.one_of(st.integers(-5, 60), st.sampled_from([0.5, 10.25, 20.75, 1e9, -3.5]))
-ids = st.sampled_from(["a", "b", "c", "d", "zz"])
+ids = st.sampled_from(["a", "b", "c", "d", "zz", "a", "b", "", 0])        # (falsy ids are ids too)
+PAYLOADS = [
+    {"name": "a.gcode", "path": "a.gcode", "origin": "local", "size": 1234},
+    {"name": "a.gcode", "path": "a.gcode", "origin": "local", "size": 1234},
+    {"name": "b.gcode", "path": "sub/b.gcode", "origin": "local"},
+    {"name": "a.gco", "path": "a.gco", "origin": "sdcard"},
+]
 
 
 @st.composite
@@ -242,6 +248,10 @@ def machine(tier, col):  # pylint: disable=unused-argument
         @rule(name=st.sampled_from(("PRINT_STARTED", "PRINT_STARTED", "FILE_SELECTED", "PRINT_PAUSED", "CONNECTED") + END_EVENTS))
         def event(self, name):
             self.do(["event", name])
+
+        @rule(name=st.sampled_from(("PRINT_STARTED", "FILE_SELECTED", "FILE_SELECTED", "FILE_SELECTED") + END_EVENTS), payload=st.sampled_from(PAYLOADS))
+        def event_with_payload(self, name, payload):
+            self.do(["event", name, payload])
 
         @rule(key=st.sampled_from(["clearRegionsAfterPrintFinishes", "mayShrinkRegionsWhilePrinting"]), val=st.booleans())
         def setting(self, key, val):
